@@ -24,7 +24,7 @@ ASSUMPTIONS = ["statistical channel: 2e5 draws per law, 7 standard errors per mo
 N = {"quick": 96, "thorough": 9600}
 REQUIRE = {"quick": {"lookup_events": 1500, "law_events": 24, "law_correlated": 12, "decoupled_events": 600,
                      "immutability_events": 1000, "branin_zero_inputs": 30, "dataset_checks": 4, "dataset_raw_file_checks": 4,
-                     "normalize_events": 200, "closest_events": 100, "normalize_out_of_bounds_events": 100}}
+                     "normalize_events": 200, "closest_events": 100, "normalize_out_of_bounds_events": 100, "straddling_query_pairs": 100}}
 TIMEOUT = {"quick": 900, "thorough": 3600}
 NDRAW = 200_000
 NSE = 7.0
@@ -98,7 +98,7 @@ def check_closest(mon, rng, ds):
 
 def check_lookup(mon, rng, ds, prob, dec):
     n, d = ds.in_data.shape
-    kinds = ["grid", "off", "mid", "single", "far"]
+    kinds = ["grid", "off", "mid", "single", "far", "straddle"]
     for _ in range(25):
         kind = str(rng.choice(kinds))
         if kind == "grid":
@@ -111,6 +111,20 @@ def check_lookup(mon, rng, ds, prob, dec):
             i, j = rng.integers(n, size=2)
             t = 0.5 + rng.choice([0.0, 1e-3, -1e-3, 1e-12])
             x = (ds.in_data[i] * t + ds.in_data[j] * (1 - t)).reshape(1, -1)
+        elif kind == "straddle":
+            # two queries a few 1e-9 apart on opposite sides of the bisector of two designs, in one batch: they agree to 8
+            # decimals but have different nearest designs (seeded/W06: nearest index memoised by the rounded query)
+            i, j = rng.integers(n, size=2)
+            L = float(np.linalg.norm(ds.in_data[i] - ds.in_data[j]))
+            if L < 1e-3:
+                continue
+            u = (ds.in_data[j] - ds.in_data[i]) / L
+            mid = (ds.in_data[i] + ds.in_data[j]) / 2
+            t = float(rng.choice([3e-9, 1e-9, 4e-10]))
+            x = np.vstack([mid - t * u, mid + t * u, mid - 2 * t * u, mid + 2 * t * u][: int(rng.choice([2, 4]))])
+            if rng.random() < 0.5:
+                x = x[::-1].copy()
+            mon.count("straddling_query_pairs")
         elif kind == "single":
             x = ds.in_data[int(rng.integers(n))] + rng.normal(size=d) * 1e-3  # 1-D point
         else:
